@@ -81,7 +81,9 @@ func (t *Tree) setBlock(name string, body *BlockNode) {
 }
 
 func (t *Tree) enrichError(err error) error {
-	if err, ok := err.(ParsingError); ok {
+	// Every parse error type embeds parseError and therefore has setTree; none of
+	// them has all the methods of ParsingError, so asserting that interface never matched.
+	if err, ok := err.(interface{ setTree(t *Tree) }); ok {
 		err.setTree(t)
 	}
 	return err
